@@ -73,13 +73,14 @@ class Scope:
 
 
 class Gen:
-    def __init__(self, rng, max_stmts=40, max_depth=3, risk=0.01, inject_fail=0.3, py_compat=True):
+    def __init__(self, rng, max_stmts=40, max_depth=3, risk=0.01, inject_fail=0.3, py_compat=True, no_mutation=False):
         self.r = rng
         self.max_stmts = max_stmts
         self.max_depth = max_depth
         self.risk = risk
         self.inject_fail = inject_fail
         self.py = py_compat
+        self.no_mutation = no_mutation
         self.nv = 0
         self.nf = 0
         self.ng = 0
@@ -522,7 +523,7 @@ class Gen:
         if k < 48:
             # container mutation
             cands = [v for v in sc.all_vars() if v.ty in MUTABLE and not self.is_locked(sc, v.group)]
-            if cands:
+            if cands and not self.no_mutation:
                 v = self.ch(cands)
                 if self.mutate_ok(sc, v):
                     self.mutation(sc, indent, v)
